@@ -406,6 +406,8 @@ type CallCtx struct {
 }
 
 type Interp struct {
+	// EmptyMaps: symbolic map-valued locations (by key) that hold an empty map when first read
+	EmptyMaps func(key string) bool
 	W *World
 	// Fields: abstract contents of symbolic locations, keyed "name.field"
 	Fields map[string]AV
@@ -860,6 +862,21 @@ func (in *Interp) load(st *State, addr AV, t types.Type, pos token.Pos) AV {
 		if v, ok := in.Fields[key]; ok {
 			return in.refined(st, v)
 		}
+		// configured fields are facts about the input, not memory the callees may have changed
+		if strings.Contains(key, "@") {
+			if v, ok := in.Fields[epochRe.ReplaceAllString(key, "")]; ok {
+				return in.refined(st, v)
+			}
+		}
+		// a map-valued field the analysis is told to be empty at the start (the caller re-initialises it before:
+		// that obligation is decided elsewhere)
+		if in.EmptyMaps != nil && t != nil {
+			if _, isMap := t.Underlying().(*types.Map); isMap && in.EmptyMaps(epochRe.ReplaceAllString(key, "")) {
+				ref := st.alloc(&Obj{T: t, Kind: 'm', Site: "emptymap:" + key, Val: NonNil{"map"}})
+				st.symMem[key] = ref
+				return ref
+			}
+		}
 		// a configured field that has moved into (or out of) an embedded struct: r.x.f is given, r.x.ctx.f is
 		// read (or the other way round) — same root, same field name, one path a subsequence of the other
 		if v, ok := in.fieldByShape(key); ok {
@@ -949,7 +966,7 @@ func (in *Interp) store(st *State, addr, v AV, pos token.Pos) {
 func (in *Interp) instrs(st *State, b, pred *ssa.BasicBlock, idx int, k kont) {
 	if in.Paths-in.basePaths > in.MaxPaths || in.Steps-in.baseSteps > 40*in.MaxPaths*10 {
 		if !in.budgetHit && os.Getenv("GOCO_DEBUG") != "" {
-			fmt.Fprintf(os.Stderr, "budget: paths=%d max=%d steps=%d\n", in.Paths, in.MaxPaths, in.Steps)
+			fmt.Fprintf(os.Stderr, "budget: paths=%d max=%d steps=%d in %s block %d stack %s labels %v\n", in.Paths, in.MaxPaths, in.Steps, relName(b.Parent()), b.Index, st.stackString(), st.Labels)
 		}
 		in.budgetHit = true
 		return
